@@ -243,7 +243,7 @@ fn run_session(st: &mut St, ops: &[&String]) -> Result<(), String> {
   let errors_line;
   {
     let mut session = st.pie.new_session();
-    let mut finish = |out: &mut Vec<String>, n0: usize, res: Result<String, String>| {
+    let finish = |out: &mut Vec<String>, n0: usize, res: Result<String, String>| {
       for e in rec_a.since(n0) { out.push(format!("ev {}", e)); }
       TASKLOG.with(|l| out.extend(l.borrow_mut().drain(..)));
       CHKLOG.with(|l| out.extend(l.borrow_mut().drain(..).map(|x| format!("i: ck {}", x))));
